@@ -39,7 +39,12 @@ def rules(model: Model, tier: str) -> List[RuleResult]:
     _dispatch(model, D)
     _uniq(model, U)
     _identical(model, I)
-    return [R6, S, D, U, I]
+    G = RuleResult(PROP, "C09-G", "sibling wrappers delegate getter and setter in the same (all-names) space", min_instances=4)
+    N = RuleResult(PROP, "C09-N", "nn.Module parameters are installed through the dotted-path helpers for every captured name", min_instances=3)
+    _delegation(model, G)
+    from .c10 import _order
+    _order(model, N)
+    return [R6, S, D, U, I, G, N]
 
 
 # ------------------------------------------------------------------------------------------------- S
@@ -258,6 +263,39 @@ def _uniq(model: Model, U: RuleResult):
         U.ok(st.fq, "each sibling receives its own slice [cumsum_idx[i]:cumsum_idx[i+1]]")
     else:
         U.bad(st, st.node, "MultiSibling must hand each function the slice delimited by consecutive offsets")
+
+
+def _delegation(model: Model, G: RuleResult):
+    """A wrapper that forwards `_set_all_obj_params(<list>)` to the wrapped function(s) must build that list with the wrapped
+    function's `_get_all_obj_params_init()` - the name-aligned list of ALL object parameters.  Taking the wrapped function's
+    de-duplicated `objparams()` instead yields a shorter list whenever one tensor is registered under two names, and the setter
+    then leaves the trailing names untouched."""
+    for cname in ("SingleSiblingPureFunction", "MultiSiblingPureFunction"):
+        cls = model.cls(PF, cname)
+        g, st = cls.methods.get("_get_all_obj_params_init"), cls.methods.get("_set_all_obj_params")
+        if g is None or st is None:
+            raise AnalysisError("C09-G: %s lacks the getter/setter pair" % cname)
+
+        def inner_calls(fi):
+            out = []
+            for c in ast.walk(fi.node):
+                if isinstance(c, ast.Call) and isinstance(c.func, ast.Attribute):
+                    recv = ast.unparse(c.func.value)
+                    if recv in ("self.pfunc", "pfunc") or recv.startswith("self.pfuncs"):
+                        out.append(c.func.attr)
+                elif isinstance(c, ast.Attribute) and c.attr in ("_cur_objparams", "_allobjparams") and ast.unparse(c.value) in ("self.pfunc", "pfunc"):
+                    out.append(c.attr)
+            return out
+        gc, sc = inner_calls(g), inner_calls(st)
+        if gc and set(gc) == {"_get_all_obj_params_init"}:
+            G.ok(g.fq, "%s collects with the wrapped function's _get_all_obj_params_init() (all names, duplicates kept)" % cname)
+        else:
+            G.bad(g, g.node, "%s builds its parameter list from %s of the wrapped function; the list handed to _set_all_obj_params must be the "
+                  "name-aligned one from _get_all_obj_params_init() (aliased tensors are otherwise left un-substituted)" % (cname, sorted(set(gc)) or "nothing"))
+        if sc and set(sc) == {"_set_all_obj_params"}:
+            G.ok(st.fq, "%s installs with the wrapped function's _set_all_obj_params" % cname)
+        else:
+            G.bad(st, st.node, "%s must forward to the wrapped function's _set_all_obj_params (found %s)" % (cname, sorted(set(sc))))
 
 
 # ------------------------------------------------------------------------------------------------- I
